@@ -2021,6 +2021,11 @@ pub fn gen_control_flow(rng: &mut Rng, avoid: &Avoid) -> Scenario {
     // handler
     if need_h1 {
         main.push(g.st(StmtKind::Label("H1".into())));
+        if g.f.on_error_goto_0 && g.rng.chance(1, 10) {
+            // the handler switches trapping off first of all: ERR still holds the code of
+            // the error it is handling
+            main.push(g.st(StmtKind::OnErrorGoto0));
+        }
         // handler trace goes to LPT1 or screen
         let mut items = vec![
             PItem::E(Expr::Str("H".into())),
